@@ -317,6 +317,12 @@ def work_strings(task):
                 q = "[" + ", ".join(lits) + "]"
             else:
                 q = "[" + ", ".join("[%s]" % l for l in lits) + "]"
+            company = i % 2 == 1
+            if company:
+                # values of other kinds printed earlier in the same run (address sets, integers of every radix): what
+                # was printed before must not show in how a string is printed
+                q = "(0 10 aset 0x20 0x30 aset add, 0xff, 0o17, 0b101, -0x10, true, %s)" % q
+                ev.label("cli-batch:after-other-values")
             path = os.path.join(BUILD, "run", "c20-%d-%d.zw" % (os.getpid(), i))
             with open(path, "w") as f:
                 f.write(q)
@@ -331,6 +337,8 @@ def work_strings(task):
                 ev.violations.append({"property": PID, "query": q[:500], "reason": "CLI failed: rc %d stderr %r" % (rc, err[:300]), "signature": "C20:cli:%d" % i})
                 continue
             printed = out.rstrip(b"\n")
+            if company:
+                printed = printed.split(b"\n")[-1]
             # The printed sequence is Zwerg syntax: read it back.
             rb = drv.run(printed)
             ok = "res" in rb and len(rb["res"]) == 1 and rb["res"][0][0]["t"] == "q"
